@@ -7,7 +7,7 @@ site no rule discharges is reported.  Lemmas are checked once per run; a failed
 lemma is itself a violation and the sites that rest on it are listed with it.
 """
 import re
-from ..core import pan, terms, tab
+from ..core import ordrules, pan, terms, tab
 from ..core.facts import callee_name, norm_name
 from ..core.prog import canon, short
 
@@ -323,6 +323,27 @@ class Lemmas:
                 np_ = sum(1 for bb, nm, a in pi.calls() if nm == "std::vec::Vec::push" and canon(a[0]).startswith("Vec::with_capacity"))
                 ni = sum(1 for bb in pi.path if bb in incb)
                 shapes.add((np_, ni))
+            # the loop is left (other than by `return Err`) only on an unconsumed Eol / Eof: no token is swallowed by an exit
+            exits = set()
+            comp = set()
+            for c_ in cfg.sccs():
+                if heads[0] in c_:
+                    comp = set(c_)
+            for pi in tab.paths(P, pdr, start=heads[0], stop=lambda x: x not in comp):
+                last = pi.path[-1]
+                if pi.back is not None or last in comp:
+                    continue
+                if pdr.term(last)["t"] == "return" and ordrules.ret_shape(pi) == "Err":
+                    continue
+                # does this exit lead to an Err return only?  (error construction blocks outside the loop)
+                tok = [d[2] for d in pi.decisions() if d[0] == "variant" and d[1] == "Parser::peek(self)"]
+                consumed = [nm.split("::")[-1] for bb, nm, a in pi.calls() if nm in ("parser::Parser::get", "parser::Parser::skip", "parser::Parser::expect") or (nm in P.f.bodies and nm.startswith("parser::") and nm.split("::")[-1].startswith("parse_"))]
+                errs_only = all(ordrules.ret_shape(p2) == "Err" for p2 in tab.paths(P, pdr, start=last, to_return_only=True)) if pdr.term(last)["t"] != "return" else False
+                if errs_only:
+                    continue
+                exits.add((tok[0] if tok else None, tuple(consumed)))
+            ok &= self._ob("ROWWIDTH", "push-advance:loop-left-only-at-unconsumed-line-end", bool(exits) and all(t is not None and set(t) <= {"Eol", "Eof"} and not c for t, c in exits),
+                           "the entry loop is left only when the next token is Eol / Eof, without consuming anything", "the entry loop can be left as %s (peeked kinds, tokens consumed on the way out): an entry can be swallowed without being stored" % sorted(exits, key=str))
             ok &= self._ob("ROWWIDTH", "push-advance:one-of-each-per-trip", shapes == {(1, 1)}, "every continuing trip of the entry loop pushes one entry and advances the column counter once", "trips of the entry loop do (pushes, counter advances) = %s: an entry can be dropped or the counter can run ahead of the data" % sorted(shapes))
         else:
             ok &= self._ob("ROWWIDTH", "push-advance:entry-loop-anchor", False, "", "entry loop of parse_data_row not found")
